@@ -103,9 +103,9 @@ func c07Shapes() []c07Shape {
 	add("result-map", "f1", []interface{}{1}, h1, map[string]interface{}{"a": "x", "b": "x"}, reflect.TypeOf(map[string]interface{}(nil)))
 	// numbers that only the big types hold: what comes out of an interface{} position depends on the decoding side's
 	// LongType / RealType (option set 4 on both sides); a side that ignores its option returns another number
-	bi, _ := new(big.Int).SetString("1180591620717411303424", 10)                // 2^70
-	bf, _ := new(big.Float).SetPrec(64).SetString("9223372036854775809")           // 2^63 + 1: 64 bits of mantissa
-	huge, _ := new(big.Float).SetPrec(64).SetString("1e400")                       // beyond float64
+	bi, _ := new(big.Int).SetString("1180591620717411303424", 10)        // 2^70
+	bf, _ := new(big.Float).SetPrec(64).SetString("9223372036854775809") // 2^63 + 1: 64 bits of mantissa
+	huge, _ := new(big.Float).SetPrec(64).SetString("1e400")             // beyond float64
 	add("big-long-arg-real-result", "fany", []interface{}{bi}, h0, bf, ifaceT)
 	add("big-real-arg-long-result", "fany", []interface{}{bf}, h0, bi, ifaceT)
 	add("big-huge-real", "fany", []interface{}{huge}, h1, huge, ifaceT)
